@@ -215,7 +215,8 @@ Section TablesP.
       flat_map (fun s => map (fun k => (k, lr)) (emit_sel (pv lr) (ids_vals (pv lr) [] (ids_defs sk)) s)) (sels sk)
       = map (fun k => (k, lr)) (expected lt rules (pv lr))).
     { intros [l r] Hin. apply in_cross in Hin. rewrite flat_map_map_comm. f_equal.
-      unfold skeleton_ok in Hok. rewrite forallb_forall in Hok.
+      unfold skeleton_ok in Hok. apply andb_true_iff in Hok. destruct Hok as [_ Hok].
+      rewrite forallb_forall in Hok.
       specialize (Hok (pv (l, r))). apply list_nat_eqb_eq. apply Hok.
       apply pair_val_enumerated. intros Hlt. cbn. apply Hsds; tauto. }
     induction (cross L R) as [|lr t IH]; cbn; [constructor|].
@@ -296,3 +297,69 @@ Section TwoDataset.
       + apply negb_true_iff, Nat.eqb_neq. lia.
   Qed.
 End TwoDataset.
+
+(* ------------------------------------------------------------------------------------ *)
+(* Unordered pairs: with admissibility = strict order on an injective id, every unordered pair
+   of distinct records appears in at most one orientation; for rules symmetric in l and r it
+   appears (in exactly one orientation) iff some rule is TRUE; for asymmetric rules the
+   two-sided bound of the property text holds. *)
+Section Unordered.
+  Variable rec : Type.
+  Variable id : rec -> nat.
+  Definition adm_lt (l r : rec) : bool := Nat.ltb (id l) (id r).
+
+  Lemma one_orientation_only (rules : list (rec -> rec -> tv)) L n m l r :
+    In (n, (l, r)) (block adm_lt rules L L) -> In (m, (r, l)) (block adm_lt rules L L) -> False.
+  Proof.
+    unfold block. rewrite !block_aux_spec. unfold adm_lt.
+    intros (_&_&H1&_) (_&_&H2&_). apply Nat.ltb_lt in H1, H2. lia.
+  Qed.
+
+  Lemma present_if_true_both_ways (rules : list (rec -> rec -> tv)) L l r :
+    rules <> [] -> In l L -> In r L -> id l <> id r ->
+    (exists rk, In rk rules /\ rk l r = T) -> (exists rk, In rk rules /\ rk r l = T) ->
+    (exists n, In (n, (l, r)) (block adm_lt rules L L)) \/ (exists n, In (n, (r, l)) (block adm_lt rules L L)).
+  Proof.
+    intros Hne Hl Hr Hid H1 H2.
+    apply (first_true_some_iff rec 0 rules l r) in H1. apply (first_true_some_iff rec 0 rules r l) in H2.
+    destruct H1 as [n Hn], H2 as [m Hm]. unfold block. destruct rules as [|a t]; [congruence|].
+    destruct (Nat.ltb (id l) (id r)) eqn:E.
+    - left. exists n. apply block_aux_spec. cbn [existsb]. unfold adm_lt. tauto.
+    - right. exists m. apply block_aux_spec. cbn [existsb]. unfold adm_lt.
+      apply Nat.ltb_ge in E. assert (id r < id l) by lia. apply Nat.ltb_lt in H. tauto.
+  Qed.
+
+  Lemma absent_if_true_neither_way (rules : list (rec -> rec -> tv)) L l r n :
+    rules <> [] ->
+    (forall rk, In rk rules -> rk l r <> T) ->
+    ~ In (n, (l, r)) (block adm_lt rules L L).
+  Proof.
+    intros Hne H1 Hin. unfold block in Hin. destruct rules as [|a t]; [congruence|].
+    apply block_aux_spec in Hin. destruct Hin as (_&_&_&_&Hf).
+    assert (E : exists k, first_true 0 (a :: t) l r = Some k) by eauto.
+    apply first_true_some_iff in E. destruct E as [rk [Hin Hk]]. exact (H1 rk Hin Hk).
+  Qed.
+End Unordered.
+
+(* ------------------------------------------------------------------------------------ *)
+(* What the code does for the rule list [plain r0; exploding r1] (known finding
+   KF-C01-exploding-preceded): the exclusion of r0 inside the marginal id table of r1 is evaluated
+   on the EXPLODED variants, not on the parent records. *)
+Section ExplodingPreceded.
+  Variable rec : Type.
+  Variable adm : rec -> rec -> bool.
+  Variable explode : rec -> list rec.            (* exploded variants of a record *)
+  Variables r0 r1 : rec -> rec -> tv.
+
+  Definition ids_r1 (L : list rec) : list (rec * rec) :=
+    filter (fun p => adm (fst p) (snd p) &&
+              existsb (fun lv => existsb (fun rv =>
+                 isT (r1 lv rv) && negb (coalesce_false (r0 lv rv))) (explode (snd p))) (explode (fst p)))
+           (cross L L).
+  Definition block_plain_then_exploding (L : list rec) : list (nat * (rec * rec)) :=
+    map (fun p => (0, p)) (filter (fun p => isT (r0 (fst p) (snd p)) && adm (fst p) (snd p)) (cross L L))
+    ++ map (fun p => (1, p)) (ids_r1 L).
+  (* specification: rule 1 is TRUE for a pair when it is TRUE on some pair of variants *)
+  Definition r1_spec (l r : rec) : tv :=
+    of_bool (existsb (fun lv => existsb (fun rv => isT (r1 lv rv)) (explode r)) (explode l)).
+End ExplodingPreceded.
